@@ -16,8 +16,9 @@ ASSUMPTIONS = [
     "implementation by the oracle only (the clipping to the used area is openpyxl/excelwrapper code that "
     "is not modelled)",
     "CSE array formulas, tables / structured references, formulas returning a reference (OFFSET, INDIRECT) and "
-    "the reference cell of an unbounded range are outside the machine: the streams cse-order, table-order, "
-    "reference-order, cse-range and unbounded-history are judged on the implementation alone, the reference "
+    "the reference cell of an unbounded range and range operations (intersection, computed corners) are outside "
+    "the machine: the streams cse-order, table-order, reference-order, cse-range, range-ops and "
+    "unbounded-history are judged on the implementation alone, the reference "
     "being the value of the cell evaluated alone by a fresh compiler (from-scratch compile after writes)",
 ]
 
@@ -156,7 +157,8 @@ def run(ctx):
     ensure_impl_on_path()
     _stream_dag(ctx)
     # oracle-only streams (implementation alone; the reference is the cell evaluated alone in a fresh compiler)
-    for stream in (_stream_cse, _stream_tables, _stream_reference, _stream_cse_overlap, _stream_unbounded_history):
+    for stream in (_stream_cse, _stream_tables, _stream_reference, _stream_cse_overlap, _stream_range_ops,
+                   _stream_unbounded_history):
         try:
             stream(ctx)
         except Exception:      # noqa: BLE001
@@ -170,7 +172,17 @@ def run(ctx):
         "references, all/sampled first-evaluation orders and range paths, values also computed from the sheet's "
         "own table; reference-order - cells whose whole formula returns a reference (OFFSET/INDIRECT) to formula "
         "cells, sampled permutations, value = the target's; cse-range - sub-rectangles and unbounded rows/columns "
-        "around and across CSE arrays of an in-memory workbook; unbounded-history - SUM/COUNT/MIN/MAX of A:A, "
+        "around and across CSE arrays of an in-memory workbook, plus adjacent arrays with identical / prefix-equal "
+        "texts (first block >= 2 cells across the adjacency): every thin range 1 x k / k x 1 / 2 x k anchored in the "
+        "first block and running into the neighbours, before and after its cells, and SUM(thin range) = sum of the "
+        "cells; range-ops - formulas built on a range operation (intersection operator incl. unbounded operands, "
+        "computed corners B3:OFFSET(B3,0,0) / OFFSET(..):B3 / INDEX(..):B3 / B3:INDIRECT(..), B1:B2:B5, union "
+        "arguments) that denotes one formula / number / blank cell or a sub-range, bare or wrapped, and cells chained "
+        "on them: every range (the column of operations, the columns / rows / block they point into, B:B, E:E, r:r), "
+        "list / tuple / generator and formula cell evaluated first, then every other target, plus random "
+        "permutations; each observation = the solo value including its type (a nested tuple where a scalar belongs "
+        "is a violation), the value stored for a single cell is not an array, SUM(range) = sum of the cells, a "
+        "failing order is shrunk to the targets needed; unbounded-history - SUM/COUNT/MIN/MAX of A:A, "
         "A:B, r:r, 1:n with set_value on members, every first-evaluation order of the formulas, each value "
         "compared with a from-scratch compile")
 
@@ -296,15 +308,30 @@ class _Shape(Exception):
     pass
 
 
+def _seq_target(kind, cells):
+    """the cells read through one evaluate() of a list / tuple / generator of their addresses"""
+    return dict(addr=f"{kind}({', '.join(_a(*c) for c in cells)})", seq=kind, cells=list(cells))
+
+
 def _look(comp, target, seen):
+    if target.get('seq'):
+        addrs = [_a(*c) for c in target['cells']]
+        arg = {'list': list, 'tuple': tuple, 'generator': iter}[target['seq']](addrs)
+        val = comp.evaluate(arg)
+        if type(val) is not (list if target['seq'] == 'list' else tuple) or len(val) != len(addrs):
+            raise _Shape(f"evaluate({target['addr']}) is not a sequence of its cells' values: {val!r}"[:160])
+        for cell, v in zip(target['cells'], val):
+            seen.setdefault(cell, []).append(canon(v))
+        return
     r1, c1, r2, c2 = target['rect']
     val = canon(comp.evaluate(target['addr']))
     if target.get('open'):
         # an unbounded row/column: its extent is whatever the wrapper clips it to (an in-memory
         # openpyxl sheet grows when a formula touches a cell outside the used area), each element
         # is judged as the cell at its position (a cell nobody filled is blank: None)
-        flat = val if isinstance(val, tuple) else (val,)
-        if any(isinstance(v, tuple) for v in flat):
+        flat = val if isinstance(val, tuple) and val[:1] != ('float',) else (val,)
+        if flat and all(isinstance(v, tuple) and v[:1] != ('float',) for v in flat):
+            # rows of rows: not one row/column (a single nested element is judged as that cell's value)
             raise _Shape(f"evaluate({target['addr']}) is not one row/column: {val!r}"[:160])
         r2, c2 = (r1, c1 + len(flat) - 1) if target['open'] == 'row' else (r1 + len(flat) - 1, c1)
     vals = _rect_values(val, r2 - r1 + 1, c2 - c1 + 1)
@@ -314,10 +341,12 @@ def _look(comp, target, seen):
         seen.setdefault((target['sheet'], r1 + dr, c1 + dc), []).append(v)
 
 
-def _observe(ExcelCompiler, grid, order, inputs=None):
+def _observe(ExcelCompiler, grid, order, inputs=None, keep=None):
     """Fresh compiler, the targets evaluated in the given order, then each once more.
     {cell: [every value observed for it]}"""
     comp = ExcelCompiler(excel=grid.build(inputs))
+    if keep is not None:
+        keep.append(comp)
     seen = {}
     for t in order:
         _look(comp, t, seen)
@@ -648,15 +677,100 @@ def _gen_cse_overlap(rng):
     return g
 
 
+def _gen_cse_adjacent(rng):
+    """Two (sometimes three) CSE array formulas side by side (or one below the other) whose texts
+    are IDENTICAL, prefix-equal (the neighbour's text extends the first one's) or different; the
+    first block is at least 2 cells across the direction of adjacency, so that a thin range
+    (1 x k / k x 1) anchored at its top-left cell and running into the neighbour has no more
+    cells than the first block.  Returns (grid, thin ranges, sum cells {cell: rect it sums})."""
+    g = Grid()
+    s = g.sheet(wbgen.SHEET)
+    for r in range(1, 4):
+        s['cells'][(r, 8)] = rng.choice([1, 2, 3, 5, 7, 16]) * r
+        s['cells'][(r, 9)] = rng.choice([10, 20, 30, 17]) * r
+        s['cells'][(r, 10)] = rng.choice([100, 200]) * r
+    horizontal = rng.random() < 0.5
+    r0, c0 = rng.choice([(1, 1), (1, 1), (2, 1), (1, 2)])
+    across, along = rng.choice([(2, 2), (2, 2), (3, 2), (2, 1), (2, 3), (3, 1)])    # across >= 2
+    h, w = (across, along) if horizontal else (along, across)
+    op = rng.choice(['*2', '+1', '+5', '*3'])
+    text = f'=H1:{_col(8 + min(w, 3) - 1)}{min(h, 3)}{op}'
+    blocks = [(r0, c0, r0 + h - 1, c0 + w - 1, text)]
+    for _ in range(rng.choice([1, 1, 2])):
+        pr1, pc1, pr2, pc2, ptext = blocks[-1]
+        along2 = rng.choice([1, 2, 2])
+        across2 = rng.choice([across, across, max(1, across - 1)])
+        h2, w2 = (across2, along2) if horizontal else (along2, across2)
+        r1, c1 = (pr1, pc2 + 1) if horizontal else (pr2 + 1, pc1)
+        if r1 + h2 - 1 > 6 or c1 + w2 - 1 > 6:
+            break
+        blocks.append((r1, c1, r1 + h2 - 1, c1 + w2 - 1,
+                       rng.choice([text, text, text, text + '0', text + '+0', f'=H1:I2{op}0'])))
+    s['arrays'] += blocks
+    lr2, lc2 = blocks[-1][2], blocks[-1][3]
+    thin = []
+    if horizontal:
+        for r in range(r0, r0 + h):                       # r = r0: anchored at the first block's top-left
+            thin += [(r, c0, r, c) for c in range(c0 + 1, lc2 + 2)]
+        thin += [(r0, c0, r0 + 1, c) for c in range(c0 + w, lc2 + 1)]
+    else:
+        for c in range(c0, c0 + w):
+            thin += [(r0, c, r, c) for r in range(r0 + 1, lr2 + 2)]
+        thin += [(r0, c0, r, c0 + 1) for r in range(r0 + h, lr2 + 1)]
+    # ordinary cells: the sum of a thin range spanning both blocks, next to the blocks
+    sums = {}
+    span = [x for x in thin if (x[0], x[1]) == (r0, c0) and (x[3] > blocks[0][3] or x[2] > blocks[0][2])
+            and x[2] <= lr2 and x[3] <= lc2]
+    for i, rect in enumerate(rng.sample(span, min(2, len(span)))):
+        cell = (6 + i, 8)
+        s['cells'][cell] = f'=SUM({_col(rect[1])}{rect[0]}:{_col(rect[3])}{rect[2]})'
+        sums[(wbgen.SHEET,) + cell] = rect
+    return g, thin, sums
+
+
+def _cse_arrays(g):
+    arrays = [[a[0], a[1], a[2], a[3], a[4], text] for a, (_, _, _, _, text) in
+              zip(g.arrays(), g.sheets[0]['arrays'])]
+    members = {(r, c) for (_, r1, c1, r2, c2, _) in arrays for r in range(r1, r2 + 1) for c in range(c1, c2 + 1)}
+    return arrays, members
+
+
+def _cse_range_targets(ctx, ExcelCompiler, g, k, targets, solo, arrays, members, both_orders=False):
+    """each target range evaluated before / after its member cells by a fresh compiler: every
+    element equals the value of the cell evaluated alone"""
+    t = wbgen.SHEET
+    for ti, target in enumerate(targets):
+        r1, c1, r2, c2 = target['rect']
+        cells = [_cell_target((t, r, c)) for r in range(r1, r2 + 1) for c in range(c1, c2 + 1)
+                 if (t, r, c) in solo]
+        orders = [[target] + cells, cells + [target]] if both_orders else \
+            [([target] + cells) if ti % 2 == 0 else (cells + [target])]
+        for oi, order in enumerate(orders):
+            kind = 'cse-range-' + ('inside' if (r1, c1) in members else 'outside')
+            case = dict(call='cse-range', args=[target['addr']], order=[x['addr'] for x in order],
+                        wrapper='in-memory', workbook=g.desc(), rect=[t, r1, c1, r2, c2], arrays=arrays)
+            try:
+                seen = _observe(ExcelCompiler, g, order)
+            except Exception as exc:      # noqa: BLE001
+                ctx.count(('cse-range', k, ti, oi), kind=kind)
+                ctx.violation(dict(case, error=type(exc).__name__),
+                              f"evaluate({target['addr']}) raises {type(exc).__name__}: {exc}"[:200])
+                continue
+            bad = sorted(c for c, vals in seen.items() if any(v != solo.get(c) for v in vals))
+            ctx.count(('cse-range', k, ti, oi), kind=kind)
+            if bad:
+                ctx.violation(dict(case, error='value'),
+                              f"elements {[_a(*c) for c in bad]} of {target['addr']} differ from the cells' own values",
+                              impl={_a(*c): seen[c] for c in bad}, expected={_a(*c): solo.get(c) for c in bad})
+
+
 def _stream_cse_overlap(ctx):
     from pycel import ExcelCompiler
     rng = ctx.rng
     t = wbgen.SHEET
     for k in range(ctx.n(14, 140)):
         g = _gen_cse_overlap(rng)
-        arrays = [[a[0], a[1], a[2], a[3], a[4], text] for a, (_, _, _, _, text) in
-                  zip(g.arrays(), g.sheets[0]['arrays'])]
-        members = {(r, c) for (_, r1, c1, r2, c2, _) in arrays for r in range(r1, r2 + 1) for c in range(c1, c2 + 1)}
+        arrays, members = _cse_arrays(g)
         solo = _solo(ctx, ExcelCompiler, 'cse-range', g, g.cells())
         if solo is None:
             continue
@@ -672,26 +786,179 @@ def _stream_cse_overlap(ctx):
         for (_, r1, c1, r2, c2, _) in arrays:
             targets.append(_col_target(g, t, c1))
             targets.append(_row_target(g, t, r1))
-        for ti, target in enumerate(targets):
-            r1, c1, r2, c2 = target['rect']
-            cells = [_cell_target((t, r, c)) for r in range(r1, r2 + 1) for c in range(c1, c2 + 1)
-                     if (t, r, c) in solo]
-            order = ([target] + cells) if ti % 2 == 0 else (cells + [target])
-            case = dict(call='cse-range', wrapper='in-memory', workbook=g.desc(), args=[target['addr']],
-                        order=[x['addr'] for x in order], rect=[t, r1, c1, r2, c2], arrays=arrays)
+        _cse_range_targets(ctx, ExcelCompiler, g, k, targets, solo, arrays, members)
+    # adjacent blocks with identical / prefix-equal texts: every thin range anchored in the first
+    # block and running into the neighbour(s), before and after its cells; SUM over such a range
+    for k in range(ctx.n(12, 120)):
+        g, thin, sums = _gen_cse_adjacent(rng)
+        arrays, members = _cse_arrays(g)
+        solo = _solo(ctx, ExcelCompiler, 'cse-range', g, g.cells())
+        if solo is None:
+            continue
+        targets = [_range_target(t, *x) for x in thin]
+        _cse_range_targets(ctx, ExcelCompiler, g, ('adjacent', k), targets, solo, arrays, members, both_orders=True)
+        _sum_oracle(ctx, 'cse-range', ('adjacent', k), g, sums, solo,
+                    dict(wrapper='in-memory', arrays=arrays))
+
+
+def _sum_oracle(ctx, stream, key, grid, sums, solo, extra=None):
+    """{cell holding =SUM(rect): rect}: the value of the cell (evaluated alone) is the sum of the
+    values of the rectangle's cells (each evaluated alone) - the range as a formula argument is one
+    more access path.  Judged when every member is a number or blank."""
+    for cell, (r1, c1, r2, c2) in sorted(sums.items()):
+        vals = [solo.get((cell[0], r, c)) for r in range(r1, r2 + 1) for c in range(c1, c2 + 1)]
+        nums = [v for v in vals if v is not None]
+        ctx.count((stream, 'sum') + tuple(key) + (cell,), kind=stream + '-sum')
+        if any(isinstance(v, bool) or not (isinstance(v, int) or (isinstance(v, tuple) and v[:1] == ('float',)))
+               for v in nums):
+            continue
+        want = sum(v[1] if isinstance(v, tuple) else v for v in nums)
+        got = solo[cell]
+        gotn = got[1] if isinstance(got, tuple) and got[:1] == ('float',) else got
+        if isinstance(gotn, bool) or not isinstance(gotn, (int, type(want))) or gotn != want:
+            case = dict(call=stream, args=[_ra(cell[0], r1, c1, r2, c2)], order=[_a(*cell)], error='sum',
+                        workbook=grid.desc())
+            case.update(extra or {})
+            ctx.violation(case, f"{_a(*cell)} = SUM({_ra(cell[0], r1, c1, r2, c2)}) is not the sum of the values "
+                                f"of the cells of that range", impl=got, expected=want)
+
+
+# ------------------- T6: range operations (intersection, union, multi-colon, computed corners) reached through ranges
+def _gen_range_ops(rng):
+    """Column A: numbers.  Columns B, C: FORMULA cells (some numbers, C also blanks).  Column E:
+    formulas built on a range OPERATION - the intersection operator (space), a computed corner
+    (B3:OFFSET(B3,0,0), OFFSET(..):B3, INDEX(..):B3, B3:INDIRECT("B3")), several colons
+    (B1:B2:B5), a union of arguments - resolving to ONE (formula / number / blank) cell or to a
+    sub-range, bare or wrapped (SUM, +1, unary minus), plus cells chained on them.  G1, G2: SUM
+    over the column of operations and over column B.
+    Returns (grid, rows the operations point at, {sum cell: rect})."""
+    g = Grid()
+    t = wbgen.SHEET
+    s = g.sheet(t)
+    n = rng.choice([4, 5, 5])
+    for r in range(1, n + 1):
+        s['cells'][(r, 1)] = rng.choice([1, 2, 3, 5, 7, -4, 10])
+        forms = [f'=A{r}*2', f'=A{r}+{rng.randrange(1, 9)}', f'=SUM(A1:A{r})', f'=A{r}*A1']
+        if r > 1:
+            forms += [f'=B{r - 1}+A{r}', f'=B{r - 1}*2']
+        s['cells'][(r, 2)] = rng.choice(forms) if rng.random() < 0.85 else rng.choice([4, 9, 20])
+        kind = rng.random()
+        if kind < 0.3:
+            s['cells'][(r, 3)] = rng.choice([100, 200, 'txt'])
+        elif kind < 0.65:
+            s['cells'][(r, 3)] = rng.choice([f'=B{r}+1', f'=A{r}*10', f'=B{r}&"c"'])
+    rows = []
+
+    def one_cell(col, tr):
+        """range operations denoting the single cell <col><tr>"""
+        o = 'ABC'.index(col) - 1           # column offset from B
+        return rng.choice([
+            f'{col}1:{col}{n} A{tr}:C{tr}', f'A{tr}:C{tr} {col}1:{col}{n}', f'{col}1:{col}{n} A{tr}:C{tr}',
+            f'{col}:{col} {tr}:{tr}', f'{col}1:{col}{n} {tr}:{tr}', f'{col}1:{col}2:{col}{n} A{tr}:C{tr}',
+            f'A1:C{n} {col}1:{col}{n} A{tr}:C{tr}', f'{col}{tr - 1}:{col}{tr} {col}{tr}:{col}{n}',
+            f'{col}{tr}:OFFSET({col}{tr},0,0)', f'OFFSET({col}{tr},0,0):{col}{tr}', f'{col}{tr}:OFFSET(B{tr},0,{o})',
+            f'OFFSET(A1,{tr - 1},{o + 1}):{col}{tr}', f'INDEX({col}1:{col}{n},{tr}):{col}{tr}',
+            f'{col}{tr}:INDIRECT("{col}{tr}")', f'INDIRECT("{col}"&{tr}):{col}{tr}'])
+
+    def sub_range(col, tr):
+        """range operations denoting a range of two or more cells, as function arguments"""
+        return rng.choice([
+            f'{col}1:{col}{n} A{tr}:C{tr + 1}', f'A{tr}:C{tr} B1:C{n}', f'{col}{tr}:OFFSET({col}{tr},1,0)',
+            f'OFFSET({col}{tr},0,0):{col}{tr + 1}', f'{col}{tr}:INDEX({col}1:{col}{n},{tr + 1})',
+            f'{col}1:{col}{tr}:{col}{n}', f'{col}1:{col}2,{col}{tr + 1}:{col}{n}', f'A{tr}:B{tr}:C{tr + 1}',
+            f'A{tr}:C{tr + 1} B1:C{n}', f'{col}{tr}:INDIRECT("{col}{tr + 1}")'])
+    m = rng.choice([2, 3, 3, 4])
+    for i in range(1, m + 1):
+        col = rng.choice('BBBC')
+        tr = rng.randrange(2, n)
+        rows.append(tr)
+        kind = rng.random()
+        if i > 1 and kind < 0.2:
+            text = rng.choice([f'=E{i - 1}+1', f'=SUM(E1:E{i - 1})', f'=E{i - 1}&"e"'])
+        elif kind < 0.75:
+            x = one_cell(col, tr)
+            text = rng.choice(['={}', '={}', '={}', '=SUM({})', '=({})+1', '=-({})', '=IF(TRUE,{},0)']).format(x)
+        else:
+            text = rng.choice(['=SUM({})', '=SUM({})', '=MAX({})', '=COUNT({})']).format(sub_range(col, tr))
+        s['cells'][(i, 5)] = text
+    s['cells'][(1, 7)] = f'=SUM(E1:E{m})'
+    s['cells'][(2, 7)] = f'=SUM(B1:B{n})'
+    return g, n, m, sorted(set(rows)), {(t, 1, 7): (1, 5, m, 5), (t, 2, 7): (1, 2, n, 2)}
+
+
+def _stream_range_ops(ctx):
+    from pycel import ExcelCompiler
+    rng = ctx.rng
+    t = wbgen.SHEET
+    for k in range(ctx.n(12, 120)):
+        g, n, m, rows, sums = _gen_range_ops(rng)
+        cells = g.cells()
+        solo = _solo(ctx, ExcelCompiler, 'range-ops', g, cells)
+        if solo is None:
+            continue
+        _sum_oracle(ctx, 'range-ops', (k,), g, sums, solo)
+        singles = [_cell_target(c) for c in cells]
+        ecells = [(t, i, 5) for i in range(1, m + 1)]
+        bcells = [(t, r, 2) for r in range(1, n + 1)]
+        ranges = [_range_target(t, 1, 5, m, 5), _range_target(t, 1, 2, n, 2), _range_target(t, 1, 1, n, 3),
+                  _range_target(t, 1, 5, 2, 7), _col_target(g, t, 2), _col_target(g, t, 5)]
+        for r in rows:
+            ranges += [_range_target(t, r, 1, r, 3), _row_target(g, t, r)]
+        mixed = ecells + [(t, r, c) for r in rows for c in (2, 3) if (t, r, c) in solo]
+        rng.shuffle(mixed)
+        ranges += [_seq_target('list', ecells), _seq_target('tuple', bcells), _seq_target('generator', mixed)]
+        every = singles + ranges
+        # every range / sequence, and every formula cell, evaluated FIRST by a fresh compiler, then
+        # every other target (ranges included: a cell must show the same value inside them);
+        # plus random permutations of all targets
+        firsts = ranges + [x for x, c in zip(singles, cells) if c[2] != 1]
+        orders = []
+        for first in firsts:
+            rest = [x for x in every if x is not first]
+            rng.shuffle(rest)
+            orders.append([first] + rest)
+        for _ in range(ctx.n(6, 20)):
+            orders.append(rng.sample(every, len(every)))
+        def verdict(order):
+            """None when every observation agrees with the solo values, else (kind, what, impl, expected)"""
+            keep = []
             try:
-                seen = _observe(ExcelCompiler, g, order)
+                seen = _observe(ExcelCompiler, g, order, keep=keep)
+            except _Shape as exc:
+                return 'shape', str(exc), None, None
             except Exception as exc:      # noqa: BLE001
-                ctx.count(('cse-range', k, ti), kind='cse-range-' + ('inside' if (r1, c1) in members else 'outside'))
-                ctx.violation(dict(case, error=type(exc).__name__),
-                              f"evaluate({target['addr']}) raises {type(exc).__name__}: {exc}"[:200])
-                continue
+                return type(exc).__name__, f"evaluate raises {type(exc).__name__}: {exc}"[:200], None, None
             bad = sorted(c for c, vals in seen.items() if any(v != solo.get(c) for v in vals))
-            ctx.count(('cse-range', k, ti), kind='cse-range-' + ('inside' if (r1, c1) in members else 'outside'))
             if bad:
-                ctx.violation(dict(case, error='value'),
-                              f"elements {[_a(*c) for c in bad]} of {target['addr']} differ from the cells' own values",
-                              impl={_a(*c): seen[c] for c in bad}, expected={_a(*c): solo.get(c) for c in bad})
+                return ('value', f"value of {[_a(*c) for c in bad]} depends on the first-evaluation order / access "
+                                 f"path (differs from the value of the cell evaluated alone)",
+                        {_a(*c): seen[c] for c in bad}, {_a(*c): solo.get(c) for c in bad})
+            # what the compiler stores for a single cell is one value, not an array of values
+            nested = sorted(c for c in cells
+                            if isinstance(getattr(keep[0].cell_map.get(_a(*c)), 'value', None), (tuple, list)))
+            if nested:
+                return ('stored', f"the value stored for the single cell(s) {[_a(*c) for c in nested]} is an array",
+                        {_a(*c): repr(keep[0].cell_map[_a(*c)].value) for c in nested},
+                        {_a(*c): solo[c] for c in nested})
+            return None
+        reported = 0
+        for oi, order in enumerate(orders):
+            ctx.count(('range-ops', k, oi), kind='range-ops')
+            if reported >= 3:
+                continue
+            found = verdict(order)
+            if found is None:
+                continue
+            # a failing order: drop every target that is not needed for this kind of failure
+            small = list(order)
+            for x in list(order):
+                trial = [y for y in small if y is not x]
+                if trial and (verdict(trial) or [None])[0] == found[0]:
+                    small = trial
+            kind, what, impl, expected = verdict(small)
+            reported += 1
+            ctx.violation(dict(call='range-ops', order=[x['addr'] for x in small], first=small[0]['addr'],
+                               error=kind, workbook=g.desc()), what, impl=impl, expected=expected)
 
 
 # ------------------------------------- T5: unbounded row/column ranges as formula arguments, with writes
